@@ -85,9 +85,18 @@ static int gen_scripts(uint64_t caseseed, script_t *S)
 static void free_scripts(script_t *S, int m) { for (int i = 0; i < m; i++) for (uint32_t e = 0; e < S[i].n; e++) { free(S[i].sym[e]); S[i].sym[e] = NULL; } }
 
 /* ---- executor ---- */
+static void script_step(script_t *s);
+/* interleaved runs only: the other sessions also advance from inside this session's callbacks (an application that services
+ * several flows from its decoded-symbol handler); one level deep */
+static script_t *g_il_scripts; static int g_il_m, g_il_in_cb; static rng_t *g_il_rng; static uint64_t g_il_steps;
 static void *c12_cb(void *ctx, UINT32 size, UINT32 esi)
 {
 	script_t *s = ctx; void *ret = NULL;
+	if (g_il_scripts && !g_il_in_cb && rng_below(g_il_rng, 2) == 0) {
+		int j = (int)rng_below(g_il_rng, (uint32_t)g_il_m);
+		script_t *o = &g_il_scripts[j];
+		if (o != s && o->pc < o->nsteps) { g_il_in_cb = 1; script_step(o); g_il_in_cb = 0; g_il_steps++; }
+	}
 	s->cbacc += hash64(esi + 1, size) | 1;           /* a commutative accumulation: the set of events, not their order */
 	s->cbn++;
 	int give = s->cbmode == 1 ? 1 : s->cbmode == 2 ? 0 : !(esi & 1);
@@ -245,6 +254,7 @@ static void one_case(uint64_t caseseed, int merge_style, long unit, long idx)
 	uint64_t order_hash = 7; int total = 0, done = 0, rr = 0; int block = 1 + (int)rng_below(&r, 4);
 	for (int i = 0; i < m; i++) total += S[i].nsteps;
 	int pairs[8][8]; memset(pairs, 0, sizeof pairs); int last = -1;
+	g_il_scripts = S; g_il_m = m; g_il_rng = &r; g_il_in_cb = 0;
 	for (;;) {
 		int i, left = 0;
 		for (int q = 0; q < m; q++) left += S[q].pc < S[q].nsteps;     /* a rejected configuration shortens its script */
@@ -257,6 +267,8 @@ static void one_case(uint64_t caseseed, int merge_style, long unit, long idx)
 		if (last >= 0 && last != i) pairs[S[last].c.codec][S[i].c.codec] = 1;
 		last = i;
 	}
+	g_il_scripts = NULL;
+	rep_count("calls_of_other_sessions_made_from_inside_a_callback", g_il_steps); g_il_steps = 0;
 	for (int a = 0; a < 8; a++) for (int b = 0; b < 8; b++) if (pairs[a][b]) { char nm[64]; snprintf(nm, sizeof nm, "adjacent_codec_pair_%d_%d", a, b); rep_count(nm, 1); }
 
 	int nontrivial = 0;
